@@ -12,6 +12,7 @@ request  {"op":"c08","escape":[id,prefix]} → {"escape": {"ok":s}|{"err":..}, "
 import Driver.Wire
 import MxlVerif.Model.C08Doc
 import MxlVerif.Model.C08Compartment
+import MxlVerif.Model.C08Language
 open Lean Mxl Mxl.Wire Mxl.C08
 namespace Driver.H_c08
 
@@ -179,6 +180,11 @@ def handleModel (j : Json) : Except String Json := do
       ++ m.derived.map (·.2) ++ m.rxns.map (·.fn)
       ++ (m.rxns.flatMap fun r => r.stoich.filterMap fun kv => match kv.2 with | .computed f => some f | _ => none)
     fns.any fun f => bodyUnsupported f.body
+  let inLanguage :=
+    let fns := (m.params ++ m.vars).filterMap (fun kv => match kv.2 with | .ia f => some f | _ => none)
+      ++ m.derived.map (·.2) ++ m.rxns.map (·.fn)
+      ++ (m.rxns.flatMap fun r => r.stoich.filterMap fun kv => match kv.2 with | .computed f => some f | _ => none)
+    fns.all fun f => bodyInLanguage f.body && f.params.length == f.args.length
   -- original model
   let specInit := (varNames ++ m.params.map (·.1)).map fun n => (n, pyInit noInterp m m.fuel n)
   let specAt := states.map fun st =>
@@ -196,7 +202,7 @@ def handleModel (j : Json) : Except String Json := do
     | .error _ => pure none
   let wr := writeModel m comps
   let ex := exportModel m
-  let base := [("unsupported", Json.bool unsupported), ("export", exJ sdoccJ wr), ("export_plain", exJ sdocJ ex),
+  let base := [("unsupported", Json.bool unsupported), ("in_language", Json.bool inLanguage), ("export", exJ sdoccJ wr), ("export_plain", exJ sdocJ ex),
                ("names", assocJ Json.str names), ("spec", spec)]
   match wr.bind (fun _ => ex) with
   | .error _ => pure (Json.mkObj base)
